@@ -185,6 +185,24 @@ void h_assert_fail(const char *e, const char *f, unsigned line, const char *fn) 
     if (tls_tid >= 0) simrt::fatal("assertion", std::string("assert:") + e, std::string("assertion `") + e + "' failed in " + fn + " (" + f + ":" + std::to_string(line) + ") in thread " + std::to_string(tls_tid));
 }
 
+// Process-wide kernel state (resource limits, signal dispositions, umask) behaves like shared memory: a library that
+// reads and rewrites it from several threads races on it exactly as it would on a global variable.  Every such call
+// made from inside the library is reported to the race detector as an access to a pseudo location.
+uint64_t g_process_state[3][70];
+void h_process_state(int what, int arg, int is_write) {
+    if (what < 0 || what > 2) return;
+    simrt::yield_point(simrt::Y_SYSCALL, 30 + (uintptr_t) what);
+    simrt::on_access((uintptr_t) &g_process_state[what][(unsigned) arg % 70], 8, is_write != 0, (uintptr_t) __builtin_return_address(0));
+    RT.counters[is_write ? "probe.library_wrote_process_wide_state" : "probe.library_read_process_wide_state"]++;
+}
+
+// the simulated process is unprivileged with a small soft locked-memory limit below an unlimited hard one (the common
+// desktop/container situation); limits set by the library are kept in the model, never applied to the real process
+#include <sys/resource.h>
+struct rlimit g_rl_memlock = {65536, RLIM_INFINITY};
+int h_getrlimit(int r, void *out) { if (r == RLIMIT_MEMLOCK) { *(struct rlimit *) out = g_rl_memlock; return 0; } return -1; }
+int h_setrlimit(int r, const void *in) { if (r == RLIMIT_MEMLOCK) { g_rl_memlock = *(const struct rlimit *) in; return 0; } errno = EPERM; return -1; }
+
 // scripted per-thread source (RNG configuration "scripted")
 uint64_t g_script_seed = 0;
 uint64_t g_script_off[MAXTHREADS + 2];
@@ -760,6 +778,7 @@ void install_hooks() {
     simos_hooks.raise_ = h_raise; simos_hooks.abort_ = h_abort; simos_hooks.assert_fail_ = h_assert_fail;
     simos_hooks.mutex_lock_ = simrt::hook_mutex_lock; simos_hooks.mutex_unlock_ = simrt::hook_mutex_unlock; simos_hooks.mutex_trylock_ = simrt::hook_mutex_trylock; simos_hooks.mutex_timedlock_ = simrt::hook_mutex_timedlock;
     simos_hooks.nanosleep_ = simrt::hook_nanosleep;
+    simos_hooks.process_state_ = h_process_state; simos_hooks.getrlimit_ = h_getrlimit; simos_hooks.setrlimit_ = h_setrlimit;
 }
 
 // one complete execution of the plan in THIS process (which must not have touched libsodium yet)
@@ -772,6 +791,7 @@ Outcome run_plan(const PlanT &p, int strategy, const std::vector<int> &seq_order
     for (auto &o : p.ops) g_thread_ops[(size_t) (o.thread % p.nthreads)].push_back(o.op);
     ENV.reset(mix64(p.content_seed, 0xe27));
     g_sysconf_fails = p.sysconf_fails; g_sysconf_failed = 0;
+    g_rl_memlock.rlim_cur = 65536; g_rl_memlock.rlim_max = RLIM_INFINITY;
     g_env_fault_pct = p.env_fault_pct; memset(g_env_calls, 0, sizeof g_env_calls); g_eintr_fired = g_mlock_refused = 0;
     g_script_seed = mix64(p.content_seed, 0x5c21); memset(g_script_off, 0, sizeof g_script_off);
     if (p.rng == R_INTERNAL) randombytes_set_implementation(&randombytes_internal_implementation);
